@@ -214,7 +214,7 @@ func issGenAddr(r *Rng, conf bool) string {
 	}
 	var s string
 	var err error
-	switch r.Intn(4) {
+	switch r.Intn(5) {
 	case 0: // p2pkh
 		b := address.Base58{Version: net.PubKeyHash, Data: r.Bytes(20)}
 		if conf {
@@ -228,6 +228,12 @@ func issGenAddr(r *Rng, conf bool) string {
 			s = address.ToBase58Confidential(&address.Base58Confidential{Base58: b, Version: net.Confidential, PublicKey: issGenPubKey(r)})
 		} else {
 			s = address.ToBase58(&b)
+		}
+	case 2: // p2tr: witness version 1, bech32m / blech32m
+		if conf {
+			s, err = address.ToBlech32(&address.Blech32{Prefix: net.Blech32, Version: 1, PublicKey: issGenPubKey(r), Program: r.Bytes(32)})
+		} else {
+			s, err = address.ToBech32(&address.Bech32{Prefix: net.Bech32, Version: 1, Program: r.Bytes(32)})
 		}
 	default: // p2wpkh / p2wsh
 		n := r.Pick(20, 32)
@@ -742,6 +748,7 @@ func genV2Pkt(r *Rng, b *sb) int {
 			}
 			b.add(hx(r.Bytes(32)))
 			b.add([]string{"n", "0", "1"}[r.Intn(3)])
+			b.add(b2s(r.Chance(30))) // the input is also a peg-in claim
 		} else {
 			b.add("0")
 			b.add("nil")
@@ -750,6 +757,7 @@ func genV2Pkt(r *Rng, b *sb) int {
 			b.add("nil")
 			b.add("nil")
 			b.add("n")
+			b.add(b2s(r.Chance(25))) // a peg-in claim that may receive an issuance
 		}
 	}
 	b.addn(uint64(nout))
@@ -922,6 +930,9 @@ func readV2Pkt(t *Toks) *psetv2.Pset {
 			f := true
 			in.BlindedIssuance = &f
 		}
+		if t.Int() == 1 { // also a peg-in claim (Elements allows both flags on one outpoint)
+			in.PeginWitness = [][]byte{{0x01}, {0x02, 0x03}}
+		}
 		p.Inputs = append(p.Inputs, in)
 	}
 	nout := t.Int()
@@ -964,6 +975,7 @@ func writeV2Pkt(b *sb, p *psetv2.Pset) {
 		} else {
 			b.add(b2s(*in.BlindedIssuance))
 		}
+		b.add(b2s(in.PeginWitness != nil))
 	}
 	b.addn(uint64(len(p.Outputs)))
 	for _, o := range p.Outputs {
@@ -1050,7 +1062,7 @@ func issDump(s *transaction.TxIssuance) string {
 func txIssView(tx *transaction.Transaction) string {
 	var parts []string
 	for _, in := range tx.Inputs {
-		parts = append(parts, issDump(in.Issuance))
+		parts = append(parts, b2s(in.IsPegin)+":"+issDump(in.Issuance))
 	}
 	parts = append(parts, "o")
 	for _, o := range tx.Outputs {
